@@ -385,33 +385,44 @@ func c17Counters(c *Ctx) {
 		for _, b := range fn.Blocks {
 			for _, in := range b.Instrs {
 				cc, isCall := in.(ssa.CallInstruction)
-				if !isCall || cc.Common().IsInvoke() {
+				if !isCall {
 					continue
 				}
-				cal := calleeOf(cc.Common())
-				if cal == nil || cal.Signature.Recv() == nil || len(cc.Common().Args) == 0 {
-					continue
-				}
-				if !strings.HasPrefix(qualName(cal), "(*sync/atomic.") {
-					continue
+				var recvVal ssa.Value
+				var opArgs []ssa.Value
+				m := ""
+				if cc.Common().IsInvoke() {
+					// the counter kept behind an interface with the atomic's method names
+					recvVal, opArgs, m = cc.Common().Value, cc.Common().Args, cc.Common().Method.Name()
+					if m != "Add" && m != "Load" && m != "Store" && m != "Swap" && m != "CompareAndSwap" {
+						continue
+					}
+				} else {
+					cal := calleeOf(cc.Common())
+					if cal == nil || cal.Signature.Recv() == nil || len(cc.Common().Args) == 0 {
+						continue
+					}
+					if !strings.HasPrefix(qualName(cal), "(*sync/atomic.") {
+						continue
+					}
+					recvVal, opArgs, m = cc.Common().Args[0], cc.Common().Args[1:], cal.Name()
 				}
 				// receiver: load of execution.<counter>, or a local later stored into it (constructor)
 				field := ""
-				if u, isLoad := cc.Common().Args[0].(*ssa.UnOp); isLoad {
+				if u, isLoad := recvVal.(*ssa.UnOp); isLoad {
 					if fa, isFA := u.X.(*ssa.FieldAddr); isFA {
 						if fr, okf := fieldRefOfAddr(fa); okf && fr.Type == "execution" {
 							field = fr.Field
 						}
 					}
 				}
-				if al, isAlloc := cc.Common().Args[0].(*ssa.Alloc); isAlloc && canonName(fn) == "newExecution" {
+				if al, isAlloc := recvVal.(*ssa.Alloc); isAlloc && canonName(fn) == "newExecution" {
 					field = al.Comment
 				}
 				if _, tracked := allowed[field]; !tracked {
 					continue
 				}
 				n++
-				m := cal.Name()
 				if readers[m] {
 					continue
 				}
@@ -421,7 +432,10 @@ func c17Counters(c *Ctx) {
 					c.Fail("failsafe.execution."+field, c.P.Pos(in.Pos()), fmt.Sprintf("%s.%s in %s: the counter may only be read, or bumped by Add(1) in %s", field, m, c.fn(fn), strings.Join(sortedKeys(allowed[field]), ", ")), "")
 					continue
 				}
-				if k, isK := cc.Common().Args[1].(*ssa.Const); !isK || k.Value == nil || k.Value.ExactString() != "1" {
+				if len(opArgs) != 1 {
+					ok = false
+					c.Fail("failsafe.execution."+field, c.P.Pos(in.Pos()), "counters must be bumped by exactly 1", "")
+				} else if k, isK := opArgs[0].(*ssa.Const); !isK || k.Value == nil || k.Value.ExactString() != "1" {
 					ok = false
 					c.Fail("failsafe.execution."+field, c.P.Pos(in.Pos()), "counters must be bumped by exactly 1", "")
 				}
